@@ -329,6 +329,22 @@ fn old_wait_count(w: &World) -> usize {
         cosmwasm_storage::ReadonlyBucket::multilevel(&st, &[b"wait"]);
     old.range(None, None, cosmwasm_std::Order::Ascending).count()
 }
+/// batch ids of the legacy wait-list entries (trailing decimal digits of the storage keys)
+fn old_wait_batches(w: &World) -> Vec<u64> {
+    if !w.inst[HUB] {
+        return vec![];
+    }
+    let st = StoreRef::new(w, HUB);
+    let old: cosmwasm_storage::ReadonlyBucket<Uint128> =
+        cosmwasm_storage::ReadonlyBucket::multilevel(&st, &[b"wait"]);
+    old.range(None, None, cosmwasm_std::Order::Ascending)
+        .filter_map(|r| r.ok())
+        .map(|(k, _)| {
+            let digits: Vec<u8> = k.iter().rev().take_while(|b| b.is_ascii_digit()).cloned().collect();
+            digits.iter().rev().fold(0u64, |a, d| a * 10 + (*d - b'0') as u64)
+        })
+        .collect()
+}
 fn disp_swap_denoms(w: &World) -> Vec<String> {
     if !w.inst[DISP] {
         return vec![];
@@ -1462,7 +1478,28 @@ impl<'a, A: Write, B: Write> Gen<'a, A, B> {
         if self.r.pct(p_write) {
             Op::LegacyWait {
                 addr: s(USERS[self.r.below(8) as usize]),
-                batch: self.r.range(1, 9),
+                // the storage orders entries by the DECIMAL STRING of the batch id, the model by its value:
+                // a history uses either the ids 1..9 or the ids 1, 10..19 (one key a prefix of the
+                // others) - within each set the two orders agree (PROTOCOL.md 3.1)
+                batch: {
+                    let have = old_wait_batches(self.w());
+                    let two_digit = if have.iter().any(|b| *b >= 10) {
+                        true
+                    } else if have.iter().any(|b| *b >= 2) {
+                        false
+                    } else {
+                        self.r.pct(30)
+                    };
+                    if two_digit {
+                        if self.r.pct(25) {
+                            1
+                        } else {
+                            self.r.range(10, 19)
+                        }
+                    } else {
+                        self.r.range(1, 9)
+                    }
+                },
                 // zero-amount entries exist too (a request eaten by the peg fee)
                 amt: if self.r.pct(15) { 0 } else { self.log_uniform(1, 100_000) },
             }
